@@ -94,6 +94,14 @@ def cases(rng, tier):
                     # cannot be cast back into the array's dtype is refused and nothing changes
                     q = dict(p, side="right", inplace=True, derived=None, vseed=rng.randint(0, 999))
                     out.append(q)
+    # DERIVED ragged operands (results of selections / ufuncs / conversions, whose shape objects were built by the library) against
+    # float columns of wildly different magnitudes, on shapes with and without empty rows: a broadcast that is exact for a fresh
+    # array must be exact for a derived one
+    for _ in range(120 if tier == "quick" else 1500):
+        lens = [rng.randint(0 if rng.random() < 0.3 else 1, 4) for _ in range(rng.randint(2, 6))]
+        out.append({"lens": lens, "kind": "column", "side": rng.choice(["left", "right"]), "uf": rng.choice(["add", "subtract", "multiply", "maximum", "less", "equal"]),
+                    "dta": rng.choice(["float64", "int64", "float32", "int8", "bool"]), "dtb": rng.choice(["float64", "float64", "float32"]),
+                    "vseed": rng.randint(0, 999), "derived": rng.choice(["select", "select", "ufunc", "astype", "reduced"]), "vmode": "rare"})
     if tier == "thorough":
         # the complete dtype x dtype x operand-kind table on one shape with empty rows
         for dta, dtb in pairs:
